@@ -128,6 +128,9 @@ NotBodies ==
   \cup {AndG(<<NotG(g), l>>) : l \in {Call(q1(X)), Call(r1(X))}, g \in NotInner}
   \cup {OrG(<<NotG(g), l>>) : l \in {Call(q1(X))}, g \in NotInner}
   \cup {AndG(<<l, NotG(g), pr(X)>>) : l \in {Call(q1(X)), Call(r1(X))}, g \in {Call(r1(X)), Call(q1(Y)), UnifyG(X, a)}}
+  (* a variable that first occurs under a not, a new variable introduced after it, and the first one again under a second not *)
+  \cup {AndG(<<NotG(Call(t1(Y))), Call(s2(X, W)), NotG(Call(q1(Y)))>>), AndG(<<NotG(Call(t1(Y))), Call(s2(X, W)), NotG(Call(t1(Y))), UnifyG(Y, W)>>),
+        AndG(<<NotG(Call(s2(Y, Y))), Call(s2(X, W)), NotG(Call(s2(W, Y)))>>)}
 (* facts whose first head argument is $_ or a variable, before / after facts with constants; not(...) over calls *)
 (* whose first argument is a constant or bound when the not is reached                                          *)
 w2(t, u) == Cx("w", <<t, u>>)
@@ -232,6 +235,8 @@ ListQueries ==
     Cx("both", <<Z, L1, L2>>), Cx("both", <<Z, L1, Lst(<<Z>>)>>),
     Cx("cnt", <<L1, Z>>), Cx("cnt", <<LstT(<<a>>, Anon), Z>>), Cx("inc", <<L3, Z>>), Cx("apb", <<L2, Z>>),
     Cx("nest", <<IntT(7), Z>>), Cx("nest", <<W, Z>>), Cx("nest2", <<L2, Z>>), Cx("nest3", <<c, Z>>),
+    (* a goal with an OPEN list against heads with closed lists of several lengths *)
+    Cx("item", <<LstT(<<b>>, Z)>>), Cx("item", <<LstT(<<Z>>, Anon)>>), Cx("item", <<LstT(<<Z, W>>, V("$T"))>>), Cx("item", <<LstT(<<Z>>, W)>>),
     Cx("apb", <<Lst(<<a, Lst(<<b>>)>>), Z>>), Mem(Lst(<<Z>>), Lst(<<Lst(<<a>>), b, Lst(<<c>>), EmptyList>>)),
     Mem(EmptyList, Lst(<<Lst(<<a>>), EmptyList>>)), App(Lst(<<EmptyList>>), Lst(<<EmptyList>>), Z),
     Cx("wrap", <<Z>>), Cx("wrap", <<Lst(<<Atom("x")>>)>>), Cx("wrap", <<T_>>), Cx("keep", <<LstT(<<Z>>, T_)>>) }
@@ -252,6 +257,9 @@ DeepProg ==
                                         Bip("equal", <<X, a>>)>>)) >>
 DeepQueries == {CountTo(IntT(0), IntT(n), Z) : n \in {3, 40, 62, 63, 64, 65, 90}} \cup {CountTo(IntT(5), IntT(2), Z)}
                \cup {Cx("keep", <<IntT(n), a, Z>>) : n \in {2, 63, 70}} \cup {Cx("keep", <<IntT(66), Z, W>>)}
+               (* both chains of bindings lead to the SAME variable: at the bottom two variables are unified which are aliased  *)
+               (* through 60-70 links already                                                                                  *)
+               \cup {Cx("keep", <<IntT(n), Z, Z>>) : n \in {3, 60, 64, 70}}
                \cup {Cx("same", <<IntT(n), a>>) : n \in {1, 64, 80}} \cup {Cx("same", <<IntT(70), b>>)}
 ProgsDeep == PQ(DeepProg, DeepQueries)
 
